@@ -384,7 +384,7 @@ func main() {
 		fillCases(w, r, 8)
 	}
 	files := 0
-	for i, n := 0, f.N(100, 1500); i < n; i++ {
+	for i, n := 0, f.N(100, 1000); i < n; i++ {
 		docs := e2lib.GenCorpus(r)
 		for k := 0; k < 6; k++ {
 			q, class := e2lib.GenQuery(r, docs)
